@@ -69,6 +69,10 @@ func (i Info) TokenReader() xml.TokenReader {
 	for _, ident := range i.Identity {
 		payloads = append(payloads, ident.TokenReader())
 	}
+	// Extended service discovery information (XEP-0128).
+	for idx := range i.Form {
+		payloads = append(payloads, i.Form[idx].TokenReader())
+	}
 	return i.InfoQuery.wrap(xmlstream.MultiReader(payloads...))
 }
 
